@@ -275,6 +275,7 @@ Extraction "model.ml"
   labs
   succs
   pr_solve
+  system_rows
   residual_zero
   certified
   pr_iterate
